@@ -28,7 +28,7 @@ def main():
     ap.add_argument("--skip-confirm", action="store_true")
     ap.add_argument("--wt", action="store_true", help="run the checks against a scratch worktree (VERIF_REPO) instead of applying the patch to /repo")
     a = ap.parse_args()
-    src = "/tmp/seed/%s/out/%s" % (a.prop, a.mk)
+    src = "%s/%s/out/%s" % (os.environ.get("SEED_ROOT", "/tmp/seed"), a.prop, a.mk)
     if not os.path.exists(src):
         src = os.path.join(ROOT, "seeded", "%s-%s" % (a.prop, a.mk))  # re-evaluation of a stored change
     patch = os.path.join(src, "patch.diff")
